@@ -36,6 +36,9 @@ partial def readStmt : Sexp → Option Stmt
     pure (.on (← deps.mapM atomNat?) (← readBody b))
   | .list [.atom "signal", v] => (atomInt? v).map .signal
   | .list (.atom "memo" :: b) => (readBody b).map .memo
+  -- a plain memo whose value TYPE is zero-sized in the harness: the same model statement (the model's plain
+  -- memos are "always changed" whatever the value)
+  | .list (.atom "zmemo" :: b) => (readBody b).map .memo
   | .list (.atom "selector" :: eq :: b) => do pure (.selector (← readEq eq) (← readBody b))
   | .list (.atom "effect" :: b) => (readBody b).map .effect
   | .list (.atom "scope" :: b) => (readBody b).map .scope
